@@ -11,3 +11,4 @@ for P in $PROPS; do
   echo "SEED $S check=$P exit=$rc :: $(echo "$out" | grep -E 'VIOLATION|UNDECIDED|OK|KNOWN' | head -3 | tr '\n' ' ' | cut -c1-400)"
 done
 git -C /repo checkout -- . ; git -C /repo status --short | head -3
+git -C /verif checkout -- evidence 2>/dev/null   # evidence of a patched tree must not be left behind
